@@ -37,9 +37,18 @@ def gen(rng, tier, i):
     p.opt('fs_log', 1)
     p.file('d/f1', 'line1\nline2\n'); p.file('d/f2', 'x' * 40 + '\n'); p.file('d/sub/f3', 'z\n'); p.file('f0', 'root file\n')
     p.file('svd/keep', 'k')
+    incfiles = ['inc1', 'inc2', 'inc3', 'inh1', 'inh2', 'inh3']
     p.file('inc1.c', '#include "../../../../etc/hostname"\nvoid f() { }\n')
     p.file('inc2.c', '#include "/etc/hostname"\nvoid f() { }\n')
     p.file('inc3.c', '#include "d/../../x.h"\nvoid f() { }\n')
+    # include names from an attack grammar (resolved by the lexer's own normaliser, not by the path checks of the file efuns)
+    INC = ['.//../../x.h', './../x.h', 'd/.././../x.h', '..//x.h', 'd//../../x.h', './/..//..//etc/hostname', '..', 'd/../..', './..', 'd/../../', '../', '.././x.h',
+           'd/..//../x.h', '/..//x.h', '//../x.h', '/./../x.h', 'd/./../../x.h', '...//../x.h', 'd/../d/../../x.h', './/d/../../x.h']
+    for k in range(4, 10):
+        nm = rng.choice(INC)
+        where = rng.choice(('', 'd/', 'd/sub/'))
+        p.file('%sinc%d.c' % (where, k), '#include "%s"\nvoid f() { }\n' % nm)
+        incfiles.append('%sinc%d' % (where, k))
     p.file('inh1.c', 'inherit "/../pl1";\nvoid f() { }\n')
     p.file('inh2.c', 'inherit "../pl1";\nvoid f() { }\n')
     p.file('inh3.c', 'inherit "/etc/passwd";\nvoid f() { }\n')
@@ -52,7 +61,7 @@ def gen(rng, tier, i):
         def path():
             r = rng.random()
             if r < 0.4: return rng.choice(LEGAL)
-            if r < 0.5 and ef in UNMEDIATED: return rng.choice(('inc1', 'inc2', 'inc3', 'inh1', 'inh2', 'inh3'))
+            if r < 0.6 and ef in UNMEDIATED: return rng.choice(incfiles)
             s = rng.choice(HOSTILE)
             if rng.random() < 0.3: s = rng.choice(('', '/', 'd/')) + s
             return s
